@@ -117,9 +117,14 @@ def _perform_decrypt(obj: EncryptionData, registry: JWERegistry) -> None:
     if len(cek) * 8 != enc.cek_size:  # pragma: no cover
         raise InvalidCEKLengthError(f"A key of size {enc.cek_size} bits MUST be used")
 
-    aad = json_b64encode(obj.protected)
-    if isinstance(obj, BaseJSONEncryption) and obj.aad:
-        aad = aad + b"." + urlsafe_b64encode(obj.aad)
+    if "aad" in obj.base64_segments:
+        # Additional Authenticated Data is ASCII(Encoded Protected Header [|| '.' || BASE64URL(JWE AAD)]) as
+        # *received* (RFC 7516, section 5.2 step 14), not a re-serialization of the parsed header
+        aad = obj.base64_segments["aad"]
+    else:
+        aad = json_b64encode(obj.protected)
+        if isinstance(obj, BaseJSONEncryption) and obj.aad:
+            aad = aad + b"." + urlsafe_b64encode(obj.aad)
 
     msg = enc.decrypt(ciphertext, tag, cek, iv, aad)
     if "zip" in obj.protected:
